@@ -84,6 +84,7 @@ func runC33(c *Ctx) {
 	e.tornReaders()
 	e.snapshotMatch()
 	e.loadIndexBounds()
+	e.stateLogTornTail()
 	e.seqWindowAgreement()
 	c.Set("observations", []string{
 		"kfake.Cluster.rebuildSegments (log compaction of cleanup.policy=compact topics) removes every segment and index file of the partition and then recreates them with O_TRUNC; a stop between the Remove loop and the final Sync leaves the partition without its acknowledged, non-superseded records. Exempted from the no-truncating-open rule as planned (compaction is outside the produce/commit scope).",
